@@ -215,7 +215,7 @@ class KmipSession(threading.Thread):
                         protocol_version
                     )
 
-                    if max_response_size:
+                    if max_response_size is not None:
                         max_size = max_response_size
                 except exceptions.KmipError as e:
                     response = self._engine.build_error_response(
